@@ -624,7 +624,20 @@ func runC09(r *Report) {
 					return false
 				}
 				n := CalleeName(c)
-				return (n == "builtin.append" && strings.Contains(shortType(c.Type()), "Completed")) || strings.HasSuffix(n, "(Arbitrary).Args")
+				if (n == "builtin.append" && strings.Contains(shortType(c.Type()), "Completed")) || strings.HasSuffix(n, "(Arbitrary).Args") {
+					return true
+				}
+				// or a call of an unexported pipe method that appends to the batch it is handed and returns it
+				h := c.Call.StaticCallee()
+				if h == nil || h.Blocks == nil || isExportedName(h.Name()) || !strings.HasPrefix(FuncName(h), P) || !strings.Contains(shortType(c.Type()), "[]rueidis.Completed") {
+					return false
+				}
+				for _, hs := range CallSites(h, "builtin.append") {
+					if strings.Contains(shortType(hs.Instr.(*ssa.Call).Type()), "Completed") {
+						return true
+					}
+				}
+				return false
 			}) {
 				if !fs.Block.Dominates(s.Block) || !sameLoop(fn, fs.Block, s.Block) {
 					continue
@@ -657,7 +670,7 @@ func runC09(r *Report) {
 			r.ObSite("R09b", s, "send-only-on-miss-without-flight", okG, "DoCache sends only when the lookup returned neither a hit nor a flight")
 		}
 	}
-	r.Anchor("R09b", "send sites behind a lookup", nSend >= 4)
+	r.Anchor("R09b", "send sites behind a lookup", nSend >= 3)
 
 	// R09c store semantics
 	for _, name := range []string{"rueidis.(*lru).Update", "rueidis.(*lru).Cancel"} {
